@@ -22,6 +22,10 @@ CHECKS = {
         technique="deterministic simulation: seeded death triggers at arbitrary session points followed by continuations, stays-dead oracle with seal probe",
         text="Every way of killing a session (alerts of each description, corrupt/oversize/illegal records, closure) at parked or established states, then continuations (honest traffic, replays, local sends); "
              "oracle: no delivery, no successful encode, no non-alert record sealed or emitted, no progress code after death; injected fatal alerts are judged by harness ground truth, not by what the API reports."),
+    "C18": dict(engine="chunk", level="exploration", design="10/C18",
+        technique="deterministic simulation: metamorphic replay of one endpoint's recorded inbound stream under seeded chunk/drain partitions with pinned entropy and clock",
+        text="A reference run records each endpoint's inbound bytes, application actions and outputs; the endpoint is re-created alone with the same per-node entropy stream and frozen clock and fed the same bytes under byte-at-a-time, record-aligned, "
+             "record-straddling, header-split and random partitions with partial-send drain patterns (never across a causality barrier); completion, delivered data, alerts, death and byte-identical output must match. Full, resumed, client-auth and failing handshakes plus data/closure."),
 }
 
 NOT_APPLICABLE = [
